@@ -163,20 +163,14 @@ int vnacal_new_set_m_error(vnacal_new_t *vnp,
     }
 
     /*
-     * Allocate the vector if needed.
+     * Build the new vector aside and install it only when complete,
+     * so that a failure below leaves the previous setting in place.
      */
-    if (m_error_vector == NULL) {
-	if ((m_error_vector = malloc(vnp->vn_frequencies *
-			sizeof(vnacal_new_m_error_t))) == NULL) {
-	    _vnacal_error(vcp, VNAERR_SYSTEM, "malloc: %s", strerror(errno));
-	    return -1;
-	}
-	vnp->vn_m_error_vector = m_error_vector;
+    if ((m_error_vector = malloc(vnp->vn_frequencies *
+		    sizeof(vnacal_new_m_error_t))) == NULL) {
+	_vnacal_error(vcp, VNAERR_SYSTEM, "malloc: %s", strerror(errno));
+	return -1;
     }
-
-    /*
-     * Always init the vector.
-     */
     for (int findex = 0; findex < vnp->vn_frequencies; ++findex) {
 	m_error_vector[findex].vnme_sigma_nf = 0.0;
 	m_error_vector[findex].vnme_sigma_tr = 0.0;
@@ -189,12 +183,12 @@ int vnacal_new_set_m_error(vnacal_new_t *vnp,
      */
     if (frequencies == 1) {
 	for (int findex = 0; findex < vnp->vn_frequencies; ++findex) {
-	    vnp->vn_m_error_vector[findex].vnme_sigma_nf =
+	    m_error_vector[findex].vnme_sigma_nf =
 		sigma_nf_vector[0];
 	}
 	if (sigma_tr_vector != NULL) {
 	    for (int findex = 0; findex < vnp->vn_frequencies; ++findex) {
-		vnp->vn_m_error_vector[findex].vnme_sigma_tr =
+		m_error_vector[findex].vnme_sigma_tr =
 		    sigma_tr_vector[0];
 	    }
 	}
@@ -206,12 +200,12 @@ int vnacal_new_set_m_error(vnacal_new_t *vnp,
     } else if (frequency_vector == NULL) {
 	assert(frequencies == vnp->vn_frequencies);
 	for (int findex = 0; findex < vnp->vn_frequencies; ++findex) {
-	    vnp->vn_m_error_vector[findex].vnme_sigma_nf =
+	    m_error_vector[findex].vnme_sigma_nf =
 		sigma_nf_vector[findex];
 	}
 	if (sigma_tr_vector != NULL) {
 	    for (int findex = 0; findex < vnp->vn_frequencies; ++findex) {
-		vnp->vn_m_error_vector[findex].vnme_sigma_tr =
+		m_error_vector[findex].vnme_sigma_tr =
 		    sigma_tr_vector[findex];
 	    }
 	}
@@ -227,10 +221,11 @@ int vnacal_new_set_m_error(vnacal_new_t *vnp,
 		    sigma_nf_vector, c_vector) == -1) {
 	    _vnacal_error(vcp, VNAERR_SYSTEM, "malloc: %s",
 		    strerror(errno));
+	    free((void *)m_error_vector);
 	    return -1;
 	}
 	for (int findex = 0; findex < vnp->vn_frequencies; ++findex) {
-	    vnp->vn_m_error_vector[findex].vnme_sigma_nf =
+	    m_error_vector[findex].vnme_sigma_nf =
 		_vnacommon_spline_eval(frequencies - 1, frequency_vector,
 			sigma_nf_vector, c_vector,
 			vnp->vn_frequency_vector[findex]);
@@ -240,15 +235,18 @@ int vnacal_new_set_m_error(vnacal_new_t *vnp,
 			sigma_tr_vector, c_vector) == -1) {
 		_vnacal_error(vcp, VNAERR_SYSTEM, "malloc: %s",
 			strerror(errno));
+		free((void *)m_error_vector);
 		return -1;
 	    }
 	    for (int findex = 0; findex < vnp->vn_frequencies; ++findex) {
-		vnp->vn_m_error_vector[findex].vnme_sigma_tr =
+		m_error_vector[findex].vnme_sigma_tr =
 		    _vnacommon_spline_eval(frequencies - 1, frequency_vector,
 			    sigma_tr_vector, c_vector,
 			    vnp->vn_frequency_vector[findex]);
 	    }
 	}
     }
+    free((void *)vnp->vn_m_error_vector);
+    vnp->vn_m_error_vector = m_error_vector;
     return 0;
 }
